@@ -137,8 +137,13 @@ Theorem C12_stale_lossless_refuted :
   fst (res_used f10_history f10_probe false true) <> fst (res_fresh f10_history f10_probe false true).
 Proof. exact f10_witness. Qed.
 Print Assumptions C12_stale_lossless_refuted.
+Theorem C12_stale_marker_flags_refuted :
+  decodeyuv_resets_marker_flags = false ->
+  fst (res_used f12_history f12_probe false true) <> fst (res_fresh f12_history f12_probe false true).
+Proof. exact f12_witness. Qed.
+Print Assumptions C12_stale_marker_flags_refuted.
 Theorem C12_stale_lossless_when_fixed :
-  decodeyuv_resets_lossless = true -> forall m, ok_probe faithful [KDecodeYUV m] = true.
+  decodeyuv_resets_lossless = true -> decodeyuv_resets_marker_flags = true -> forall m, ok_probe faithful [KDecodeYUV m] = true.
 Proof. exact f10_fixed. Qed.
 Print Assumptions C12_stale_lossless_when_fixed.
 
@@ -155,7 +160,7 @@ Print Assumptions C12_stale_precision_when_fixed.
 (* non-vacuity: the witness histories are made of calls admitted by the partial theorem's
    history hypothesis, and the hypotheses of the partial theorem are satisfiable *)
 Example C12_witness_histories_admitted :
-  Forall (fun c => ok_hist faithful (c_kind c) = true) (f5_history ++ f9_history ++ f10_history ++ f11_history).
+  Forall (fun c => ok_hist faithful (c_kind c) = true) (f5_history ++ f9_history ++ f10_history ++ f11_history ++ f12_history).
 Proof. exact witness_histories_ok. Qed.
 Example C12_partial_nonvacuous :
   Forall (fun c' => crop_merged (c_kind c') = false) (f5_history ++ f11_history) /\
@@ -200,7 +205,7 @@ Proof. exact f1_regression_data. Qed.
 Print Assumptions C12_F1_regression.
 Theorem C12_F2_regression :
   d_doublefree (xd (run faithful f2_history (init_x true false))) = negb dest_forgets_newbuffer /\
-  d_doublefree (xd (run (mkfix true true true true false) f2_history (init_x true false))) = true /\
+  d_doublefree (xd (run (mkfix true true true true false true) f2_history (init_x true false))) = true /\
   d_doublefree (xd (run all_fixed f2_history (init_x true false))) = false.
 Proof. exact f2_regression_lemma. Qed.
 Print Assumptions C12_F2_regression.
